@@ -85,6 +85,7 @@ namespace pika::detail {
             PIKA_VERIF_POINT("stop.cas", this, 0, 0);
         }
         PIKA_VERIF_POST("stop.acq", this, old_state, 0);
+        PIKA_VERIF_POINT("stop.held", this, 0, 0);
     }
 
     ///////////////////////////////////////////////////////////////////////////
@@ -121,6 +122,7 @@ namespace pika::detail {
             PIKA_VERIF_POINT("stop.cas", this, 0, 1);
         }
         PIKA_VERIF_POST("stop.acq", this, old_state, 1);
+        PIKA_VERIF_POINT("stop.held", this, 0, 1);
 
         return true;
     }
@@ -184,6 +186,7 @@ namespace pika::detail {
             PIKA_VERIF_POINT("stop.cas", this, 0, 2);
         }
         PIKA_VERIF_POST("stop.acq", this, old_state, 2);
+        PIKA_VERIF_POINT("stop.held", this, 0, 2);
 
         return true;
     }
